@@ -592,7 +592,7 @@ class World:
     """Context manager that installs every seam, and removes it again."""
 
     def __init__(self, stdin_data=None, stdin_sched=None, stdout_sched=None, stdin_damaged=(),
-                 vcwd=None, stdout_unbuffered=False):
+                 vcwd=None, stdout_unbuffered=False, environ=None):
         self.fs = SimFS()
         self.vcwd = (vcwd or VCWD).rstrip("/") + "/"
         self.log = self.fs.log
@@ -615,6 +615,8 @@ class World:
         self.clock = StepClock()
         self._saved = None
         self.slept = 0.0
+        self.environ = dict(environ or {})
+        self._env_saved = {}
         self.fds = {}            # fake descriptor -> SimRawFile (os.open on SimFS paths)
         self._next_fd = FAKE_FD_BASE
 
@@ -998,6 +1000,9 @@ class World:
         os._exit = self._os__exit
         time.sleep = self._sleep
         os.getcwdb = lambda: self._os_getcwd().encode()
+        for k, v in self.environ.items():
+            self._env_saved[k] = os.environ.get(k)
+            os.environ[k] = v
         sys.stdin = _StdinShell(self.stdin_buf)
         sys.stdout = self.stdout_txt
         sys.stderr = self.stderr
@@ -1027,6 +1032,12 @@ class World:
         os.path.islink = _REAL["islink"]
         os._exit = _REAL["os__exit"]
         time.sleep = _REAL["sleep"]
+        for k, v in self._env_saved.items():
+            if v is None:
+                os.environ.pop(k, None)
+            else:
+                os.environ[k] = v
+        self._env_saved = {}
         sys.stdin, sys.stdout, sys.stderr = s["stdin"], s["stdout"], s["stderr"]
         self._saved = None
         return False
@@ -1072,7 +1083,35 @@ def tool_module(tool):
     return importlib.import_module("coco." + tool)
 
 
-def _tool_codes(tool):
+_ALT = {}
+
+
+def tool_module_opt(tool, opt=0):
+    """The tool's module as `python -O` (opt=1) or `-OO` (opt=2) would compile it: asserts
+    (and docstrings) stripped.  A separate module object; the normal one is untouched."""
+    if not opt:
+        return tool_module(tool)
+    key = (tool, opt)
+    if key not in _ALT:
+        base = tool_module(tool)
+        with _REAL["open"](base.__file__, "r", encoding="utf-8") as f:
+            src = f.read()
+        code = compile(src, base.__file__, "exec", optimize=opt, dont_inherit=True)
+        m = types.ModuleType(base.__name__)
+        m.__file__ = base.__file__
+        m.__package__ = base.__package__
+        exec(code, m.__dict__)
+        _ALT[key] = m
+    return _ALT[key]
+
+
+def _tool_codes(tool, opt=0):
+    if opt:
+        if (tool, opt) not in _CODES:
+            import importlib
+            _CODES[(tool, opt)] = code_objects_of([tool_module_opt(tool, opt),
+                                                   importlib.import_module("coco.util")])
+        return _CODES[(tool, opt)]
     if tool not in _CODES:
         import importlib
         mods = [tool_module(tool), importlib.import_module("coco.util")]
@@ -1100,16 +1139,16 @@ class Outcome:
         return (self.exit, self.detail, self.hang)
 
 
-def run_tool(world: World, tool: str, argv, budget: int, wall=None) -> Outcome:
+def run_tool(world: World, tool: str, argv, budget: int, wall=None, opt=0) -> Outcome:
     """Run coco.<tool>.start(argv) as one simulated process inside `world`
     (which must already be entered).  Never lets a tool exception escape."""
-    mod = tool_module(tool)
+    mod = tool_module_opt(tool, opt)
     out = Outcome()
     clock = world.clock
     clock.count = 0
     clock.budget = budget
     clock.exceeded = False
-    clock.install(_tool_codes(tool))
+    clock.install(_tool_codes(tool, opt))
     hard = False
 
     def _stalled(signum, frame):
